@@ -11,6 +11,7 @@ package verifrt
 
 import (
 	"hash"
+	"io"
 	"io/fs"
 	"path"
 	"sort"
@@ -21,6 +22,7 @@ import (
 
 type FNode struct {
 	Data  []byte
+	Link  string // symlink target
 	Dir   bool
 	Mode  uint32
 	MTime int64 // seconds
@@ -255,7 +257,13 @@ type FileInfo struct {
 
 func (i FileInfo) Name() string       { return i.name }
 func (i FileInfo) Size() int64        { return int64(len(i.n.Data)) }
-func (i FileInfo) Mode() fs.FileMode  { return fs.FileMode(i.n.Mode) }
+func (i FileInfo) Mode() fs.FileMode {
+	m := fs.FileMode(i.n.Mode)
+	if i.n.Dir {
+		m |= fs.ModeDir
+	}
+	return m
+}
 func (i FileInfo) ModTime() time.Time { return time.Unix(i.n.MTime, 0) }
 func (i FileInfo) IsDir() bool        { return i.n.Dir }
 func (i FileInfo) Sys() any           { return nil }
@@ -361,5 +369,106 @@ func OsMkdirAllReal(p string, perm fs.FileMode) error {
 		return err
 	}
 	FSMkdir(p)
+	return nil
+}
+
+// ---- os.ReadDir
+
+type DirEntry struct {
+	name string
+	n    *FNode
+}
+
+func (e DirEntry) Name() string               { return e.name }
+func (e DirEntry) IsDir() bool                { return e.n != nil && e.n.Dir }
+func (e DirEntry) Type() fs.FileMode          { return 0 }
+func (e DirEntry) Info() (fs.FileInfo, error) { return FileInfo{name: e.name, n: e.n}, nil }
+
+// OsReadDir: entries directly under dir, sorted by name; a missing directory is fs.ErrNotExist.
+func OsReadDir(dir string) ([]fs.DirEntry, error) {
+	f, err := OsOpenAny(dir)
+	if err != nil {
+		return nil, err
+	}
+	names, _ := f.Readdirnames(-1)
+	var out []fs.DirEntry
+	for _, n := range names {
+		out = append(out, DirEntry{name: n, n: FS[dir+"/"+n]})
+	}
+	return out, nil
+}
+
+// ---- symlinks, reading, filepath.Walk
+
+func FSPutSymlink(p, target string) {
+	FS[p] = &FNode{Link: target, Mode: uint32(fs.ModeSymlink | 0o777), MTime: FSClock}
+}
+
+func OsReadlink(p string) (string, error) {
+	n, ok := FS[p]
+	if !ok || n.Mode&uint32(fs.ModeSymlink) == 0 {
+		return "", pathErr("readlink", p, fs.ErrInvalid)
+	}
+	return n.Link, nil
+}
+
+func (f *File) Read(b []byte) (int, error) {
+	n := FS[f.path]
+	if n == nil {
+		return 0, pathErr("read", f.path, fs.ErrNotExist)
+	}
+	if f.rpos >= len(n.Data) {
+		return 0, io.EOF
+	}
+	k := copy(b, n.Data[f.rpos:])
+	f.rpos += k
+	return k, nil
+}
+
+// SkipDir is filepath.SkipDir (the rewritten caller keeps using its own filepath.SkipDir value).
+var SkipDir = fs.SkipDir
+
+// Walk: filepath.Walk over the model, lexical order, with filepath.Walk's SkipDir rules: returned
+// for a directory its contents are skipped; returned for a non-directory the remaining entries of
+// the containing directory are skipped.
+func Walk(root string, fn func(path string, info fs.FileInfo, err error) error) error {
+	info, err := OsLstat(root)
+	if err != nil {
+		err = fn(root, nil, err)
+	} else {
+		err = walk(root, info, fn)
+	}
+	if err == fs.SkipDir || err == fs.SkipAll {
+		return nil
+	}
+	return err
+}
+
+func walk(p string, info fs.FileInfo, fn func(path string, info fs.FileInfo, err error) error) error {
+	if !info.IsDir() {
+		return fn(p, info, nil)
+	}
+	f, _ := OsOpenAny(p)
+	names, _ := f.Readdirnames(-1)
+	err1 := fn(p, info, nil)
+	if err1 != nil {
+		return err1 // SkipDir on a directory: the caller skips it
+	}
+	for _, name := range names {
+		child := p + "/" + name
+		ci, err := OsLstat(child)
+		if err != nil {
+			if err := fn(child, ci, err); err != nil && err != fs.SkipDir {
+				return err
+			}
+			continue
+		}
+		err = walk(child, ci, fn)
+		if err != nil {
+			if !ci.IsDir() || err != fs.SkipDir {
+				return err
+			}
+		}
+	}
 	return nil
 }
